@@ -465,6 +465,8 @@ func (g *c07Gen) genOp() *c07Case {
 			cs.FundBad = "value"
 		} else if y < 11 {
 			cs.FundBad = "extra"
+		} else if y < 13 {
+			cs.FundBad = "changeidx"
 		}
 		if g.n(100) < 8 {
 			cs.HasChV = true
